@@ -159,7 +159,7 @@ theorem readItem_safe (cfg : Cfg) (hf : cfg.allFixed) (classes : List Bytes) :
     apply (readData_safe cfg (Inv.frame cfg) hf.1 _ _ _ s hs).bind
     intro bs s' hs'
     exact (addAt_safe cfg hf _ o s' hs').bind fun _ s'' hs'' => hs''
-  | .object o cls body, s, hs => by
+  | .object m o cls body, s, hs => by
     simp only [readItem]
     apply (readN_safe cfg (Inv.frame cfg) hf.1 4 none s hs).bind
     intro tb s1 hs1
@@ -179,6 +179,7 @@ theorem readItem_safe (cfg : Cfg) (hf : cfg.allFixed) (classes : List Bytes) :
     · exact ⟨rfl, hs4⟩
     apply (readItems_safe cfg hf classes body s4 hs4).bind
     intro items s5 hs5
+    rw [bracket_ite]
     split
     · exact ⟨rfl, hs5⟩
     split
